@@ -20,7 +20,7 @@ Definition ins_op (x : str) : str := 105 :: 110 :: 115 :: x.       (* "ins" ++ x
 Definition del_op (x : str) : str := 100 :: 101 :: 108 :: x.       (* "del" ++ x *)
 Definition multi_op (l r : str) : str := l ++ 62 :: r.              (* "AC>TG", "A.C>T.G" *)
 Definition is_ins (op : str) : bool :=              (* op[:3] == "ins" / op.startswith("ins") *)
-  match op with 105 :: 110 :: 115 :: _ => true | _ => false end.
+  match op with a :: b :: c :: _ => (a =? 105) && (b =? 110) && (c =? 115) | _ => false end.
 Definition key_eqb (a b : key) : bool := (fst a =? fst b) && str_eqb (snd a) (snd b).
 
 (* what _parse_read needs to know of the gene *)
@@ -31,6 +31,7 @@ Record gview := {
   g_wide : Z * Z;                     (* Gene.get_wide_region(): (start, end) *)
   g_phaseable : list Z;               (* Sample.phaseable (positions of catalogued variants) *)
   g_multi : list (Z * (str * str));   (* Sample._multi_sites in dictionary order: pos -> (l, r) of "l>r" *)
+  g_all_multi : list (Z * (str * str)); (* every catalogued multi-substitution (gene.mutations), functional or not *)
   g_has_indels : bool                 (* Sample._indel_sites is non-empty (the indel table is truthy) *)
 }.
 
@@ -184,7 +185,7 @@ Definition parse_read (g : gview) (c : consts) (r : read) : list obs * list key 
 (* database side conditions under which the merge is a relabelling (evaluated on every gene used) *)
 Definition multi_wf1 (m : Z * (str * str)) : bool :=
   let '(pos, (l, r)) := m in
-  (length l =? length r)%nat && negb (hd 46 l =? 46) && negb (is_ins (multi_op l r)).
+  (length l =? length r)%nat && (2 <=? length l)%nat && negb (hd 46 l =? 46) && negb (is_ins (multi_op l r)).
 Definition disjoint_keys (a b : list (nat * key)) : bool :=
   forallb (fun x => negb (existsb (fun y => fst (snd x) =? fst (snd y)) b)) a.
 Fixpoint pairwise {A} (f : A -> A -> bool) (l : list A) : bool :=
